@@ -50,6 +50,7 @@ func checkC02(ctx *Ctx, r *Report) {
 	c02PythonModuleNames(ctx, r)
 	c02JavaPackageSegments(ctx, r)
 	c16FourthHunt(ctx, r) // a union branch referring to a constant: the Go builder does not type-check
+	c06FourthHunt(ctx, r) // enum members named like other declarations; builders of named optionals
 	c09FifthHunt(ctx, r)  // Python methods shadowing imported modules; integer bounds that overflow int64 in the generated Go
 	c02RuntimeGuard(ctx, r)
 	c02SortedSearch(ctx, r)
@@ -2826,6 +2827,13 @@ func c02EnumMemberIdentifiers(ctx *Ctx, r *Report) {
 	info := cp.TypesInfo
 	validity, distinct := false, false
 	for _, fd := range methodsOf(ctx, named) {
+		// the per-enum check: the method is handed one object (another method compares members across the schema)
+		perEnum := false
+		for _, f := range fd.Type.Params.List {
+			if namedName(info.TypeOf(f.Type)) == "Object" {
+				perEnum = true
+			}
+		}
 		ast.Inspect(fd.Body, func(m ast.Node) bool {
 			is, ok := m.(*ast.IfStmt)
 			if !ok || len(is.Body.List) == 0 {
@@ -2861,7 +2869,7 @@ func c02EnumMemberIdentifiers(ctx *Ctx, r *Report) {
 			}
 			if as, ok := is.Init.(*ast.AssignStmt); ok && len(as.Rhs) == 1 {
 				if ix, ok := ast.Unparen(as.Rhs[0]).(*ast.IndexExpr); ok {
-					if _, isMap := info.TypeOf(ix.X).Underlying().(*types.Map); isMap {
+					if _, isMap := info.TypeOf(ix.X).Underlying().(*types.Map); isMap && perEnum {
 						distinct = true
 					}
 				}
